@@ -1,6 +1,7 @@
 package main
 
 import (
+	"context"
 	"bytes"
 	"fmt"
 	"sort"
@@ -125,6 +126,29 @@ func runC25(c *Ctx) error {
 				_ = psts[pi].Close()
 				closed[pi] = true
 				tok, out = fmt.Sprintf("close:%d", pi), "ok"
+			case k < 18 && !closed[pi] && c.Chance(1, 3): // BatchFunc: more puts than the batch size, so the batch rolls over
+				bs := 2 + c.Intn(2)
+				add, done, _ := psts[pi].BatchFunc(context.Background(), uint64(bs), nil)
+				run := func(f func() error) error { return f() }
+				var kvs []string
+				var berr error
+				seenK := map[string]bool{}
+				for j := 0; j < 4+c.Intn(4); j++ {
+					bk := randKey()
+					if seenK[string(bk)] {
+						continue
+					}
+					seenK[string(bk)] = true
+					bv := c.Bytes(1)
+					kvs = append(kvs, hx(bk)+"."+hx(bv))
+					if err := add(func(b leveldbstorage.LeveldbBatch) { b.Put(bk, bv) }, run); err != nil && berr == nil {
+						berr = err
+					}
+				}
+				if err := done(run); err != nil && berr == nil {
+					berr = err
+				}
+				tok, out = fmt.Sprintf("bfunc:%d:%d:%s", pi, bs, strings.Join(kvs, ",")), errTok(berr)
 			case k < 18: // batch put/delete
 				b := psts[pi].NewBatch()
 				k2 := randKey()
